@@ -72,6 +72,16 @@ CLAIMED["C06"] = dict(
    text="Every exceptional path of mutate is an obligation; the fault points are enumerated by construction from the raises clauses of the calls it makes: the caller's block raising KeyboardInterrupt / SystemExit / an Exception subclass (propagates unchanged, file system identical) or CancelMutation (swallowed, file system identical); the edited simfile not serializable; not encodable in the detected encoding; open-for-writing failing; a write failing. For the first three save failures the input file still holds its original bytes; whenever the backup block has completed the backup is textwrite(enc, SER(simfile at entry)); nothing outside output/backup changes.",
    note=_FS_NOTE,
    technique="contract-based deductive verification: exhaustive exceptional-path enumeration of a loop-free function over a ghost file system; z3/cvc5", design_ref="6/C06")
+_DIR_NOTE = "Trusted: listdir/isdir/exists as functions of an unchanging tree (T-FS; NativeOSFS and any PyFilesystem assumed to satisfy it), os.path/fs.path join/split/normpath/splitext uninterpreted (T-PATH), str.lower uninterpreted with constant instances, re.search for the fixed presets as prefix/substring/suffix tests, callee contract simfile.open (C03/C05), monotonicity of prefix predicates (lemma unit; induction schema applied by the tool), generator laziness ignored, VC generator, z3/cvc5."
+CLAIMED["C19"] = dict(
+   category="proof",
+   text="extensions.match, SimfileDirectory.__init__ (loop invariant: sm_path/ssc_path are the joins of the first listed entry of each kind so far, no duplicate unless ignored), simfile_path/open (SSC preferred, FileNotFoundError iff neither, the caller's loader options and the directory's file system reach simfile.open unchanged - a call-site obligation for every subset of {strict, encoding}), SimfilePack._find_simfile_paths (two nested loop invariants: exactly the immediate entries that are directories and directly list a simfile, in order), simfiles and openpack (every directory opened with the caller's options), for NativeOSFS and a generic PyFilesystem, all discharged for every listing.",
+   note=_DIR_NOTE, technique="contract-based deductive verification: loop invariants over prefix spec functions on a ghost directory tree; call-site obligations for option threading", design_ref="6/C19")
+CLAIMED["C20"] = dict(
+   category="proof",
+   text="AssetDefinition.matches equals the documented pattern for each of the seven kinds; _get_case_insensitive_path returns the join of the first listed entry of the containing directory whose name equals the requested one ignoring case (loop invariant) or None; _asset_property for each kind returns the named file (normalised) when the simfile names one and it is found, else the first listed entry matching the pattern joined to the directory and normalised, else None, and remembers the answer; a cached answer is returned without a new lookup; SimfilePack.banner picks an image inside the pack by extension priority, else a same-named image beside it, else None (five unrolled scans with a loop invariant each). NativeOSFS and generic PyFilesystem path functions both covered.",
+   note=_DIR_NOTE + " 'Never a non-existent path' follows from the postcondition (join of a listed entry) and T-FS; the disc-by-name lookup is not claimed, as the property says.",
+   technique="contract-based deductive verification: loop invariants over prefix spec functions on a ghost directory tree", design_ref="6/C20")
 NA_REASON = "not yet brought under contract in this session (work in progress; see DESIGN.md section 6 for the plan)"
 
 NA_TABLE = {}
